@@ -56,6 +56,7 @@ void env_role(int fd, int role);
 void env_path_role(const char *path, int role);
 void env_set_plan(const deviation *d, int n);
 void env_enable(bool on);                      /* count + trace + plan on role-tagged fds */
+extern int env_alloc_on, env_alloc_count, env_alloc_fail_at;   /* allocator seam */
 int env_calls(void);                           /* number of choice points seen */
 void env_dump_trace(FILE *o);                  /* "T k op role req res errno" lines */
 extern int env_plan_mismatch;                  /* plan referenced a call that does not accept it */
